@@ -147,6 +147,7 @@ func runBigSave(c bigSaveCase) (st bigStats, err error) {
 		base[i] = bigRec(c.Seed, 'b', i, 0, 1, c.ScriptLn)
 	}
 	commit(1, base)
+	lastSavedHeight := uint32(0) // (after an undo the set may be back at the height of the last snapshot: nothing to save)
 	check := func(name string) error {
 		f, e := os.Open(filepath.Join(node.Dir, name))
 		if e != nil {
@@ -191,6 +192,11 @@ func runBigSave(c bigSaveCase) (st bigStats, err error) {
 			return fmt.Errorf("%s names block %x (height %d) and holds %d records, but not the records of the set at that block", name, hdr[8:16], height, count)
 		}
 		st.filesChecked++
+		if name == "UTXO.db" {
+			// (a save counted as "still running" when the interruption came may have completed all the same: what
+			// the last snapshot is, is read from the file, not from that observation)
+			lastSavedHeight = height
+		}
 		return nil
 	}
 	settle := func() error {
@@ -210,12 +216,10 @@ func runBigSave(c bigSaveCase) (st bigStats, err error) {
 		return fmt.Errorf("a snapshot temp file is still there 20 s after the save was aborted / finished")
 	}
 	h := uint32(1)
-	lastSavedHeight := uint32(0) // (after an undo the set may be back at the height of the last snapshot: nothing to save)
 	for round, d := range c.DelaysUs {
 		if !db.Idle() && cur.height != lastSavedHeight {
 			return st, fmt.Errorf("round %d: Idle() did not start a save although the set is dirty and at another height than the last snapshot", round)
 		}
-		heightAtIdle := cur.height
 		time.Sleep(time.Duration(d) * time.Microsecond)
 		was := db.WritingInProgress.Get()
 		// what interrupts the save: the next block - or, for every third round, the tip block being disconnected
@@ -233,7 +237,6 @@ func runBigSave(c bigSaveCase) (st bigStats, err error) {
 			st.aborted++
 		} else {
 			st.completed++
-			lastSavedHeight = heightAtIdle
 		}
 		if e := settle(); e != nil {
 			return st, e
